@@ -281,7 +281,14 @@ def get_arg_ctx_ast(
                 f"simpler sorts of arguments (no kargs or kwargs)."
                 f" The full signature was: {arg_sig}"
             )
-        if idx < num_args:
+        if p.kind == Parameter.VAR_POSITIONAL:
+            # All the remaining positional arguments are bound to this parameter (as a tuple).
+            rest = args[idx:]
+            if all(isinstance(a, (ast.Constant, ast.NameConstant)) for a in rest):
+                h = dds_hash([a.value for a in rest])  # type: ignore
+            else:
+                h = None
+        elif idx < num_args:
             # It is a list argument
             h = process_arg(args[idx])
         else:
